@@ -248,20 +248,47 @@ func mapDynamoToTypesSliceItem(input []dynamodbtypes.AttributeValue) []*types.It
 	return output
 }
 
+func copyBytes(b []byte) []byte {
+	if b == nil {
+		return nil
+	}
+
+	out := make([]byte, len(b))
+	copy(out, b)
+
+	return out
+}
+
+func copyBytesSlice(bs [][]byte) [][]byte {
+	if bs == nil {
+		return nil
+	}
+
+	out := make([][]byte, len(bs))
+	for i, b := range bs {
+		out[i] = copyBytes(b)
+	}
+
+	return out
+}
+
 func mapDynamoToTypesItem(item dynamodbtypes.AttributeValue) *types.Item {
+	// stored values must not share memory with the caller's structures: copy what is mutable
 	itemB, ok := item.(*dynamodbtypes.AttributeValueMemberB)
 	if ok {
-		return &types.Item{B: itemB.Value}
+		return &types.Item{B: copyBytes(itemB.Value)}
 	}
 
 	itemBOOL, ok := item.(*dynamodbtypes.AttributeValueMemberBOOL)
 	if ok {
-		return &types.Item{BOOL: &itemBOOL.Value}
+		value := itemBOOL.Value
+
+		return &types.Item{BOOL: &value}
 	}
 
 	itemBS, ok := item.(*dynamodbtypes.AttributeValueMemberBS)
 	if ok {
-		return &types.Item{BS: itemBS.Value}
+		return &types.Item{BS: copyBytesSlice(itemBS.Value)}
 	}
 
 	itemS, ok := item.(*dynamodbtypes.AttributeValueMemberS)
@@ -539,7 +566,7 @@ func mapTypesToDynamoLocalSecondaryIndexes(input []types.LocalSecondaryIndexDesc
 func mapTypesToDynamoItem(item *types.Item) dynamodbtypes.AttributeValue {
 	if item.B != nil {
 		return &dynamodbtypes.AttributeValueMemberB{
-			Value: item.B,
+			Value: copyBytes(item.B),
 		}
 	}
 
@@ -551,7 +578,7 @@ func mapTypesToDynamoItem(item *types.Item) dynamodbtypes.AttributeValue {
 
 	if len(item.BS) != 0 {
 		return &dynamodbtypes.AttributeValueMemberBS{
-			Value: item.BS,
+			Value: copyBytesSlice(item.BS),
 		}
 	}
 
